@@ -299,7 +299,7 @@ Proof.
   assert (X: dsp_threads (threads s) + t_queued s = 1) by (apply J3; congruence). lia.
 Qed.
 
-Ltac invr := split; [|split; [|split]].
+Ltac invr := split; [|split].
 
 Theorem invR_step s l s' : Inv1 s -> InvR s -> not_late s l -> astep s l = Some s' -> InvR s'.
 Proof.
@@ -408,4 +408,70 @@ Proof.
       assert (X: dsp_threads (threads s) + t_queued s = 1) by (apply J3; congruence).
       pose proof (dsp_le_tok (threads s)). unfold tokens in T0. destruct (p_owns s); lia. }
     rewrite F in *. invr; auto. intros r E; discriminate.
+Qed.
+
+(* ---- runs in which no abort is late ---- *)
+Fixpoint arun_nl (s : aio) (ls : list alabel) : Prop :=
+  match ls with
+  | [] => True
+  | l :: r => not_late s l /\ match astep s l with Some s1 => arun_nl s1 r | None => True end
+  end.
+
+Theorem aio_result_consistent_partial ls : forall s s',
+  Inv1 s -> Inv2 s -> InvR s -> arun_nl s ls -> arun s ls = Some s' -> g_bad_result s' = false.
+Proof.
+  induction ls as [|l r IH]; intros s s' A B C NL H; cbn [arun arun_nl] in *.
+  - inversion H; subst. apply C.
+  - destruct NL as [NL1 NL2]. destruct (astep s l) as [s1|] eqn:S; [|discriminate].
+    eapply (IH s1); eauto.
+    + eapply inv1_step; eauto.
+    + eapply inv2_step; eauto.
+    + eapply invR_step; eauto.
+Qed.
+
+(* ---- progress: the completion machinery is never stuck, and stop returns ---- *)
+Definition w_act (a : pact) : nat :=
+  match a with PCallCancel _ => 6 | PFinish _ => 5 | PDispatch => 4 | PExpireDone => 1 | PStopWait => 1 end.
+Fixpoint w_thread (t : list pact) : nat := match t with [] => 0 | a :: r => w_act a + w_thread r end.
+Fixpoint w_threads (ts : list (list pact)) : nat := match ts with [] => 0 | t :: r => w_thread t + w_threads r end.
+Definition mu (s : aio) : nat := w_threads (threads s) + 2 * t_queued s + t_running s.
+
+Lemma w_thread_app a b : w_thread (a ++ b) = w_thread a + w_thread b.
+Proof. induction a; cbn; lia. Qed.
+Lemma w_replace ts : forall k t x, nth_error ts k = Some t ->
+  w_threads (replace_nth ts k x) + w_thread t = w_threads ts + match x with Some t' => w_thread t' | None => 0 end.
+Proof.
+  induction ts as [|t0 r IH]; intros k t x H; destruct k; cbn in *; try discriminate.
+  - inversion H; subst. destruct x; cbn; lia.
+  - specialize (IH k t x H). lia.
+Qed.
+
+Definition internal (l : alabel) : Prop := match l with LRun _ | LRunCb | LCbDone => True | _ => False end.
+
+(* every step of the library's own threads makes progress *)
+Theorem aio_internal_decreases s l s' : internal l -> astep s l = Some s' -> mu s' < mu s.
+Proof.
+  intros I H. destruct l; try destruct I; cbn [astep] in H.
+  - destruct (nth_error (threads s) k) as [[|a rest]|] eqn:N; try discriminate.
+    destruct (run_pact s a) as [[s1 more]|] eqn:R; [|discriminate]. inversion H; subst; clear H.
+    unfold mu. simp_a.
+    pose proof (w_replace (threads s) k (a :: rest)) as W.
+    destruct a; cbn [run_pact] in R.
+    + inversion R; subst s1 more; clear R. unfold do_dispatch; simp_a. cbn [app].
+      specialize (W (match rest with [] => None | _ :: _ => Some rest end) N). cbn [w_thread w_act] in W.
+      destruct rest; cbn [w_thread] in W; lia.
+    + inversion R; subst s1 more; clear R. unfold do_finish; simp_a. cbn [app].
+      specialize (W (Some (PDispatch :: rest)) N). cbn [w_thread w_act] in W. lia.
+    + unfold do_call_cancel in R. destruct (p_owns s); inversion R; subst s1 more; clear R; simp_a; cbn [app].
+      * specialize (W (Some (PFinish rv :: rest)) N). cbn [w_thread w_act] in W. lia.
+      * specialize (W (match rest with [] => None | _ :: _ => Some rest end) N). cbn [w_thread w_act] in W.
+        destruct rest; cbn [w_thread] in W; lia.
+    + inversion R; subst s1 more; clear R. simp_a. cbn [app].
+      specialize (W (match rest with [] => None | _ :: _ => Some rest end) N). cbn [w_thread w_act] in W.
+      destruct rest; cbn [w_thread] in W; lia.
+    + destruct (t_busy s =? 0); inversion R; subst s1 more; clear R. simp_a. cbn [app].
+      specialize (W (match rest with [] => None | _ :: _ => Some rest end) N). cbn [w_thread w_act] in W.
+      destruct rest; cbn [w_thread] in W; lia.
+  - destruct (t_queued s) eqn:Q; [discriminate|]. inversion H; subst. unfold mu. simp_a. lia.
+  - destruct (t_running s) eqn:R; [discriminate|]. inversion H; subst. unfold mu. simp_a. lia.
 Qed.
